@@ -1,5 +1,31 @@
 import BigtreeModel.Proto
-/-! Driver handler for property C16: one case (token list) in, one canonical line out. -/
+import BigtreeModel.Dag
+import BigtreeModel.DagProto
+/-! Driver handler for property C16 (DAG traversal and queries).
+`n=<n> E=<a>b,c>d,…> s=<start> iter=<0|1>` — the DAG is the one left behind by adding the
+edges in this order (adjacency lists in insertion order). Output, all from start node `s`:
+`iter=<edges in yield order> anc=<ids> desc=<ids> sib=<ids> go0=<p.q.r|p.r> go1=rej …`
+(`iter=skip` when not asked: dag_iterator is only claimed on weakly connected DAGs). -/
 namespace Drv.C16
-def handle (_toks : List String) : String := "unimplemented"
+open Proto Dag DagProto
+
+def showPaths (ps : Option (List (List Nat))) : String :=
+  match ps with
+  | none => "rej"
+  | some l => if l.isEmpty then "-" else "|".intercalate (l.map showDots)
+
+def handle (toks : List String) : String :=
+  let r : Option String := do
+    let n ← (← kv toks "n").toNat?
+    let es ← parseEdges (← kv toks "E")
+    let s ← (← kv toks "s").toNat?
+    let it ← kv toks "iter"
+    if s ≥ n then none
+    if es.any (fun e => e.1 ≥ n || e.2 ≥ n) then none
+    let g := ofEdges n es
+    let iter ← if it == "1" then some (showEdges (g.dagIter s)) else if it == "0" then some "skip" else none
+    let gos := (List.range n).map fun t => "go" ++ toString t ++ "=" ++ showPaths (g.goTo s t)
+    pure (" ".intercalate (["iter=" ++ iter, "anc=" ++ showNats (g.ancestors s),
+      "desc=" ++ showNats (g.descendants s), "sib=" ++ showNats (g.siblings s)] ++ gos))
+  r.getD "bad-op"
 end Drv.C16
